@@ -155,3 +155,10 @@ Definition for_list_brk_p {S} (l : list Z) (dummy : unit) (s : S) (body : Z -> S
 (* a[-1] = v on a population / fitness vector; the finite value of an extended rational *)
 Definition set_last {A} (l : list A) (x : A) : list A := match l with [] => [] | _ => removelast l ++ [x] end.
 Definition Qinf_val (a : Qinf) : Q := match a with Fin q => q | _ => 0%Q end.
+(* mask = a >= b (element-wise);  x[mask] = y[mask] *)
+Definition geq_mask (a b : list Q) : list bool := map (fun p => Qle_bool (snd p) (fst p)) (combine a b).
+Fixpoint mask_write {A} (mask : list bool) (src dst : list A) : list A :=
+  match mask, src, dst with
+  | m :: ms, s :: ss, d :: ds => (if m then s else d) :: mask_write ms ss ds
+  | _, _, _ => dst
+  end.
